@@ -106,18 +106,46 @@ def run_plugin(unit, out, repo):
     return ok, r.stderr[-2000:]
 
 
-def extract(repo=REPO, verbose=False, extra_files=None):
+def units_like(base_cdir, base_repo, repo):
+    """Compile units of `repo` derived from an already extracted sibling tree (same build flags,
+    paths rewritten): used for scratch copies so that cmake is not configured again."""
+    meta = json.load(open(os.path.join(base_cdir, "meta.json")))
+    units = []
+    for u in meta["units"]:
+        f = u["file"].replace(base_repo, repo, 1)
+        if not os.path.exists(f):
+            continue
+        flags = [a.replace(base_repo + "/", repo + "/") if base_repo + "/" in a else a for a in u["flags"]]
+        units.append({"file": f, "flags": flags, "dir": repo})
+    # new source files of the scratch tree are not in the sibling's database: fall back to cmake
+    have = set(u["file"] for u in units)
+    for d, dn, fn in os.walk(os.path.join(repo, "src")):
+        for x in fn:
+            if x.endswith(".c") and os.path.join(d, x) not in have and "/arm/" not in d:
+                return None
+    return units
+
+
+def extract(repo=REPO, verbose=False, extra_files=None, like=None):
     """Return the cache directory holding facts for repo's current tree."""
     ensure_plugin()
     key = tree_hash(repo)
     cdir = os.path.join(CACHE, key)
     if os.path.exists(os.path.join(cdir, "DONE")):
+        try:
+            os.utime(cdir)          # most recently used: pruned last
+        except OSError:
+            pass
         return cdir
     os.makedirs(CACHE, exist_ok=True)
     t0 = time.time()
     scratch = tempfile.mkdtemp(prefix="carqsa-")
     try:
-        units = compile_db(repo, scratch)
+        units = None
+        if like is not None:
+            units = units_like(like[0], like[1], repo)
+        if units is None:
+            units = compile_db(repo, scratch)
         if repo == "/repo" and len(units) < MIN_UNITS:
             raise AnalysisBroken("only %d library units in the compile database (floor %d)"
                                  % (len(units), MIN_UNITS))
@@ -143,7 +171,7 @@ def extract(repo=REPO, verbose=False, extra_files=None):
             os.rename(tmpd, cdir)
         except OSError:
             shutil.rmtree(tmpd, ignore_errors=True)  # lost the race: somebody else finished
-        _prune(keep=cdir)
+        _prune(keep=[cdir] + ([like[0]] if like else []))
     finally:
         shutil.rmtree(scratch, ignore_errors=True)
     if verbose:
@@ -153,12 +181,18 @@ def extract(repo=REPO, verbose=False, extra_files=None):
 
 
 def _prune(keep, maxdirs=6):
+    keep = set(keep)
+    for k in keep:
+        try:
+            os.utime(k)
+        except OSError:
+            pass
     try:
         ds = [os.path.join(CACHE, d) for d in os.listdir(CACHE)]
         ds = [d for d in ds if os.path.isdir(d) and os.path.exists(os.path.join(d, "DONE"))]
         ds.sort(key=lambda d: os.path.getmtime(d))
         for d in ds[:-maxdirs]:
-            if d != keep:
+            if d not in keep:
                 shutil.rmtree(d, ignore_errors=True)
     except OSError:
         pass
